@@ -1,1 +1,83 @@
+(* WheelProofs.v -- lemmas about coq/models/Wheel.v (property C03). *)
 From Got Require Import Base Wheel.
+Local Open Scope Z_scope.
+
+(* ------------------------------------------------------------------ pure arithmetic *)
+
+Lemma wh_max_timeout_id s n :
+  0 < s -> s * Z.of_nat n < 2 ^ 63 -> wh_max_timeout s n = s * Z.of_nat n.
+Proof.
+  intros Hs Hb. unfold wh_max_timeout. apply sext_id; [lia|].
+  change (2 ^ (64 - 1)) with (2 ^ 63). split; [|exact Hb].
+  assert (0 <= s * Z.of_nat n) by nia. assert (0 < 2 ^ 63) by (apply Z.pow_pos_nonneg; lia). lia.
+Qed.
+
+Lemma wh_index_panic_iff s n d :
+  0 < s -> s * Z.of_nat n < 2 ^ 63 ->
+  (wh_bucket_index s n d = None <-> d < 0 \/ s * Z.of_nat n <= d).
+Proof.
+  intros Hs Hb. unfold wh_bucket_index. rewrite wh_max_timeout_id by assumption.
+  destruct (d <? 0) eqn:E1; destruct (s * Z.of_nat n <=? d) eqn:E2; cbn [orb];
+    split; intros H; try discriminate; try reflexivity; lia.
+Qed.
+
+Lemma wh_index_value s n d i :
+  0 < s -> s * Z.of_nat n < 2 ^ 63 ->
+  wh_bucket_index s n d = Some i ->
+  0 <= d < s * Z.of_nat n /\ Z.of_nat i = Z.max (d / s) 1 - 1.
+Proof.
+  intros Hs Hb. unfold wh_bucket_index. rewrite wh_max_timeout_id by assumption.
+  destruct (d <? 0) eqn:E1; destruct (s * Z.of_nat n <=? d) eqn:E2; cbn [orb]; try discriminate.
+  intros H. injection H as H. split; [lia|].
+  assert (0 <= d / s) by (apply Z.div_pos; lia).
+  destruct (0 <? d / s) eqn:E3; subst i; rewrite Z2Nat.id; lia.
+Qed.
+
+Lemma wh_index_bound s n d i :
+  0 < s -> s * Z.of_nat n < 2 ^ 63 ->
+  wh_bucket_index s n d = Some i ->
+  ((2 <= n)%nat -> (i <= n - 2)%nat) /\ (n = 1%nat -> i = 0%nat).
+Proof.
+  intros Hs Hb H. destruct (wh_index_value s n d i Hs Hb H) as [Hd Hi].
+  assert (Hq : d / s < Z.of_nat n) by (apply Z.div_lt_upper_bound; lia).
+  assert (0 <= d / s) by (apply Z.div_pos; lia).
+  split; intros Hn; lia.
+Qed.
+
+(* the index is what the property calls D/s - 1 *)
+Lemma wh_index_D s n d i :
+  0 < s -> s * Z.of_nat n < 2 ^ 63 ->
+  wh_bucket_index s n d = Some i ->
+  Z.max (s * (d / s)) s = s * (Z.of_nat i + 1).
+Proof.
+  intros Hs Hb H. destruct (wh_index_value s n d i Hs Hb H) as [Hd Hi].
+  assert (0 <= d / s) by (apply Z.div_pos; lia). nia.
+Qed.
+
+(* tick g happens at time g*s on the wheel's own tick clock; a request that does not overlap
+   a tick and is made at clock time r after exactly k ticks (k*s <= r < (k+1)*s) obtains,
+   by wh_fire_window with k0 = k1 = k, the channel closed by tick f = k + i + 1 *)
+Lemma wh_time_window s n d i k r :
+  0 < s -> s * Z.of_nat n < 2 ^ 63 ->
+  wh_bucket_index s n d = Some i ->
+  k * s <= r < (k + 1) * s ->
+  let D := Z.max (s * (d / s)) s in
+  let f := k + Z.of_nat i + 1 in
+  D - s < f * s - r <= D.
+Proof.
+  intros Hs Hb H Hr D f. subst D f. rewrite (wh_index_D s n d i Hs Hb H). nia.
+Qed.
+
+(* a request overlapping ticks: invoked at clock time r0 (after k0 ticks), returning at r1
+   (k1 ticks started); any f allowed by the fire window is less than one step early with
+   respect to the invocation and not late with respect to the return *)
+Lemma wh_time_window_overlap s n d i k0 k1 r0 r1 f :
+  0 < s -> s * Z.of_nat n < 2 ^ 63 ->
+  wh_bucket_index s n d = Some i ->
+  k0 * s <= r0 < (k0 + 1) * s -> k1 * s <= r1 < (k1 + 1) * s ->
+  k0 + Z.of_nat i + 1 <= f <= k1 + Z.of_nat i + 1 ->
+  let D := Z.max (s * (d / s)) s in
+  D - s < f * s - r0 /\ f * s - r1 <= D.
+Proof.
+  intros Hs Hb H Hr0 Hr1 Hf D. subst D. rewrite (wh_index_D s n d i Hs Hb H). nia.
+Qed.
